@@ -61,14 +61,14 @@ def valid_strategy(versions):
     return strat()
 
 
-def mutated_strategy(versions):
+def mutated_strategy(versions, kinds=None):
     @st.composite
     def strat(draw):
-        start = draw(st.integers(0, len(gen_hed.TREE_MUTATIONS + gen_hed.TEXT_MUTATIONS) - 1))
+        start = draw(st.integers(0, len(kinds or (gen_hed.TREE_MUTATIONS + gen_hed.TEXT_MUTATIONS)) - 1))
         v = draw(st.sampled_from(versions))
         ap = draw(st.booleans())
         ann = draw(gen_hed.annotation(v, allow_placeholder=ap, max_depth=2))
-        mut = draw(gen_hed.mutated(ann, start=start))
+        mut = draw(gen_hed.mutated(ann, kinds=kinds, start=start))
         if mut["text"] is not None:
             text = mut["text"]
         elif draw(st.booleans()):
